@@ -12,36 +12,44 @@ import (
 // explained, "" otherwise. The recognisers are deliberately narrow: a violation is explained
 // only by a shape that predicts exactly that clause for exactly that subscriber/trigger.
 func Attribute(res *Result) string {
-	if len(res.Violations) == 0 || res.Model == nil || len(res.Model.Shapes) == 0 {
+	id, un := attribute(res)
+	if len(un) > 0 {
 		return ""
 	}
-	m := res.Model
-	extraInc := 0
-	for _, sh := range m.Shapes {
-		if sh.ExtraInc {
-			extraInc++
-		}
+	return id
+}
+
+// Unexplained returns the violations no recorded finding's shape explains.
+func Unexplained(res *Result) []Violation { _, un := attribute(res); return un }
+
+func attribute(res *Result) (first string, unexplained []Violation) {
+	if len(res.Violations) == 0 {
+		return "", nil
 	}
-	first := ""
+	if res.Model == nil || len(res.Model.Shapes) == 0 {
+		return "", res.Violations
+	}
+	m := res.Model
 	for _, v := range res.Violations {
 		id := ""
 		for _, sh := range m.Shapes {
-			if explains(m, sh, v, extraInc) {
+			if explains(m, sh, v) {
 				id = sh.Finding
 				break
 			}
 		}
 		if id == "" {
-			return ""
+			unexplained = append(unexplained, v)
+			continue
 		}
 		if first == "" {
 			first = id
 		}
 	}
-	return first
+	return first, unexplained
 }
 
-func explains(m *Model, sh Shape, v Violation, extraInc int) bool {
+func explains(m *Model, sh Shape, v Violation) bool {
 	later := v.Step == -1 || v.Step >= sh.Step
 	if !later {
 		return false
@@ -74,7 +82,11 @@ func explains(m *Model, sh Shape, v Violation, extraInc int) bool {
 			case ClCtxCancelled, ClStartCount, ClStartArgs:
 				return true
 			case ClDelivery:
-				return strings.HasPrefix(v.Call, "missing:")
+				return strings.HasPrefix(v.Call, "missing:") || v.Call == "unexpected:"+CComplete || v.Call == "unexpected:"+CError
+			case ClAfterCompletion:
+				// the teardown happened while a Complete/Error for the victim's subscriber was
+				// parked: the other recorded defect (F19) reached through this one
+				return v.Call == CComplete || v.Call == CError
 			}
 		}
 	}
